@@ -15,7 +15,7 @@ ABTI_verif_counter ABTI_verif_cov[ABTI_VERIF_NUM_POINTS];
 void (*volatile ABTI_verif_point_f)(int id) = NULL;
 
 #ifdef ABTD_VERIF_TSAN
-void *ABTD_verif_fiber_cache[ABTD_VERIF_FIBER_CACHE_SIZE];
+ABTD_verif_fiber_entry ABTD_verif_fiber_cache[ABTD_VERIF_FIBER_CACHE_SIZE];
 int ABTD_verif_fiber_cache_n = 0;
 pthread_mutex_t ABTD_verif_fiber_cache_lock = PTHREAD_MUTEX_INITIALIZER;
 #endif
